@@ -392,9 +392,16 @@ def run(ctx):
     # ---- R7 commit carries generation / member
     r = ctx.rule("R7", "commit request carries the consumer's group, generation id and member id", 1, "A")
     c = sends[0]
-    ok = (c.args and norm(c.args[0]) == "self.consumer_group"
-          and norm(kwarg(c, "group_generation_id") or ast.Constant(value=None)) == "self.commit_generation_id"
-          and norm(kwarg(c, "consumer_id") or ast.Constant(value=None)) == "self.commit_consumer_id")
+    cs7 = ctx.cfg(scr)
+    n7 = cs7.containing(c)
+
+    def _a7(e):
+        # through locals copied from the attribute just before (`group = self.consumer_group`)
+        return norm(at(ctx, scr, n7[0].id, e)) if (n7 and e is not None) else norm(e or ast.Constant(value=None))
+    g0 = c.args[0] if c.args else kwarg(c, "group")
+    ok = (g0 is not None and _a7(g0) == "self.consumer_group"
+          and _a7(kwarg(c, "group_generation_id")) == "self.commit_generation_id"
+          and _a7(kwarg(c, "consumer_id")) == "self.commit_consumer_id")
     r.check(ok, "%s#generation-member" % scr.qname, "commit does not carry group / generation id / member id of this consumer",
             where(scr, c), "a member of a stale generation overwrites the group's offsets unfenced")
 
